@@ -565,6 +565,7 @@ func (fr *frame) doLookup(x *ssa.Lookup, st *state) {
 			fr.tuples[x] = []T{val, {vc.mapHas(st, m, mt, k.S), "Bool", types.Typ[types.Bool]}}
 		} else {
 			fr.setVal(x, val)
+			fr.assumeStaticFresh(x, fr.vals[x], st)
 		}
 	default:
 		fr.havocVal(x, st, "string index")
